@@ -214,6 +214,11 @@ func (fc *FnCtx) binop(in *ssa.BinOp) Val {
 		if is8(T) {
 			return intV(app("or8", x.S, y.S), T)
 		}
+		// hi<<k | lo with lo < 2^k (the usual big-endian assembly of a wider integer): the
+		// operands have no bit in common, so the result is their sum
+		if lowZeroBits(in.X) >= valueBits(in.Y) || lowZeroBits(in.Y) >= valueBits(in.X) {
+			return intV(sc.define("ar", "Int", app("+", x.S, y.S)), T)
+		}
 	case token.XOR:
 		if c, ok := constOf(in.Y); ok && c.Sign() >= 0 {
 			return intV(sc.define("ar", "Int", app("-", app("+", x.S, c.String()), app("*", "2", andConst(x.S, c)))), T)
@@ -495,4 +500,77 @@ func (fc *FnCtx) typeAssert(in *ssa.TypeAssert, st *State) {
 	}
 	fc.oblig("typeassert", fc.instrText(in), okT, in.Pos())
 	fc.vals[in] = v
+}
+
+
+// valueBits bounds the number of significant bits of a non-negative value by its syntax:
+// a conversion from an unsigned 8/16/32-bit value, such a value shifted left by a constant,
+// or an OR of such values. 64 means unknown.
+func valueBits(v ssa.Value) int {
+	switch x := v.(type) {
+	case *ssa.Convert:
+		if b, ok := x.X.Type().Underlying().(*types.Basic); ok {
+			switch b.Kind() {
+			case types.Uint8:
+				return 8
+			case types.Uint16:
+				return 16
+			case types.Uint32:
+				return 32
+			}
+		}
+		return valueBits(x.X)
+	case *ssa.ChangeType:
+		return valueBits(x.X)
+	case *ssa.BinOp:
+		switch x.Op {
+		case token.SHL:
+			if c, ok := constOf(x.Y); ok && c.IsInt64() && c.Int64() >= 0 && c.Int64() < 64 {
+				if n := valueBits(x.X) + int(c.Int64()); n < 64 {
+					return n
+				}
+			}
+		case token.OR:
+			a, b := valueBits(x.X), valueBits(x.Y)
+			if a > b {
+				return a
+			}
+			return b
+		}
+	}
+	if b, ok := v.Type().Underlying().(*types.Basic); ok {
+		switch b.Kind() {
+		case types.Uint8:
+			return 8
+		case types.Uint16:
+			return 16
+		case types.Uint32:
+			return 32
+		}
+	}
+	return 64
+}
+
+// lowZeroBits: how many low bits of v are zero by its syntax (a left shift by a constant).
+func lowZeroBits(v ssa.Value) int {
+	switch x := v.(type) {
+	case *ssa.BinOp:
+		switch x.Op {
+		case token.SHL:
+			if c, ok := constOf(x.Y); ok && c.IsInt64() && c.Int64() >= 0 && c.Int64() < 64 {
+				return int(c.Int64()) + lowZeroBits(x.X)
+			}
+		case token.OR:
+			a, b := lowZeroBits(x.X), lowZeroBits(x.Y)
+			if a < b {
+				return a
+			}
+			return b
+		}
+	case *ssa.Convert:
+		if valueBits(x.X) < 64 {
+			return lowZeroBits(x.X) // widening an unsigned value keeps its low bits
+		}
+	}
+	return 0
 }
